@@ -32,7 +32,7 @@ ASSUMPTIONS = [
     "SVG 1.1 Appendix F.6.5/F.6.6 transcribed in this module is the oracle.",
     "cos/sin/sqrt/acos/degrees/abs are opaque: agreement is on the formulas, not on floating-point values.",
 ]
-FLOORS = {"R05.1": 60, "R05.2": 2, "R05.3": 4, "R05.4": 4, "R05.5": 2}
+FLOORS = {"R05.1": 60, "R05.2": 2, "R05.3": 4, "R05.4": 4, "R05.5": 2, "R05.6": 4}
 
 PARAMS = ["start", "rx", "ry", "rotation", "large_arc_flag", "sweep_flag", "end"]
 
@@ -99,6 +99,14 @@ def run(ctx):
     ctx.rule("R05.3", "stored form of the solved arc")
     ctx.rule("R05.4", "degenerate arc = straight segment, in every evaluator")
     ctx.rule("R05.5", "polar angle to ellipse parameter: half-turn correction exactly in the left half plane")
+    ctx.rule("R05.6", "the rotation about the centre that places the axis points is a rotation about that centre")
+    # _svg_parameterize swings centre + (rx, 0) and centre + (0, ry) about the centre with Matrix.post_rotate(angle, cx, cy); the
+    # centre of an arc often lies on a coordinate axis.  The obligations of C04 R04.4 for that operation are part of this property.
+    from .c04 import sandwiches as _sandwiches
+    _sp = ctx.fn("Arc._svg_parameterize", "R05.6")
+    _used = {(c.func.attr.split("_")[0], "rotate") for c in ast.walk(_sp) if isinstance(c, ast.Call) and isinstance(c.func, ast.Attribute) and c.func.attr in ("post_rotate", "pre_rotate") and len(c.args) == 3}
+    ctx.need(bool(_used), "R05.6", "Arc._svg_parameterize: rotation about the centre (Matrix.pre/post_rotate with a centre) not found")
+    _sandwiches(ctx, only=_used, rule="R05.6")
     fn = ctx.fn("Arc._svg_parameterize", "R05.1")
     have = [a.arg for a in fn.args.args][1:]
     ctx.need(have == PARAMS, "R05.1", "_svg_parameterize parameters changed: %s" % have)
@@ -273,8 +281,24 @@ def degenerate(ctx, fn):
             deg = s
     ctx.need(deg is not None and isinstance(deg.body[-1], ast.Return), "R05.4", "degenerate early exit not found")
     t = ast.unparse(deg.test)
-    ctx.ob("R05.4", "_svg_parameterize[degenerate guard]", "start == end" in t and "rx == 0" in t and "ry == 0" in t, t, deg.lineno,
-           "coincident endpoints and a zero radius are the degenerate cases of F.6.2")
+    # each of the three causes alone must take the exit: the test is false only when none of them holds
+    from ..flow import guard_implies
+
+    def cause(kind):
+        def atom_test(test, positive):
+            if positive:
+                return False
+            if kind == "coincident":
+                return isinstance(test, ast.Compare) and len(test.ops) == 1 and isinstance(test.ops[0], ast.Eq) and {ast.unparse(test.left), ast.unparse(test.comparators[0])} == {"start", "end"}
+            if isinstance(test, ast.Compare) and len(test.ops) == 1 and isinstance(test.ops[0], ast.Eq):
+                sides = [test.left, test.comparators[0]]
+                return any(isinstance(x, ast.Name) and x.id == kind for x in sides) and any(isinstance(x, ast.Constant) and x.value == 0 and not isinstance(x.value, bool) for x in sides)
+            return False
+        return atom_test
+
+    missing = [k for k in ("coincident", "rx", "ry") if not guard_implies(deg.test, False, cause(k))]
+    ctx.ob("R05.4", "_svg_parameterize[degenerate guard]", not missing, "%s; not sufficient alone: %s" % (t, missing or "-"), deg.lineno,
+           "coincident endpoints, rx = 0 and ry = 0 are EACH a degenerate case of F.6.2; with `rx == 0 and ry == 0` one zero radius reaches the division by rx^2 / ry^2 (ZeroDivisionError)")
     state = {ast.unparse(a.targets[0]): ast.unparse(a.value) for a in deg.body if isinstance(a, ast.Assign)}
     ctx.need(state.get("self.sweep") == "0", "R05.4", "degenerate state is not sweep = 0: %s" % state)
     # evaluators: branches guarded by `self.sweep == 0`
